@@ -4,6 +4,7 @@ import (
 	"errors"
 	"fmt"
 	"go/types"
+	"slices"
 
 	"golang.org/x/tools/go/packages"
 
@@ -92,7 +93,7 @@ func (c *Context) Function(name string) {
 
 // Doc sets documentation comment lines for the currently active function.
 func (c *Context) Doc(lines ...string) {
-	c.activefunc().Doc = lines
+	c.activefunc().Doc = slices.Clone(lines)
 }
 
 // Pragma adds a compiler directive to the currently active function.
